@@ -173,6 +173,21 @@ var scenarios = map[string]scenario{
 		s.N.Receive(s.PreCommit(3, p))
 		return s.W
 	}},
+	// the same path seen from C07: the node must not commit on M pre-commits one of which is invalid
+	"D17-commit-after-pool-completion": {Prop: "C07", Key: "", Run: func(keep bool) *sim.World {
+		s := sim.NewSolo(soloCfg(4, 1, 0), &ReplaySrc{}, 0, false, []*sim.Mon{sim.MonC07()}, keep)
+		s.N.Start()
+		tx := s.W.NewTx(false)
+		p := s.Proposal(0, s.NextTs(), 1, tx)
+		s.N.Receive(p)
+		s.N.Receive(s.BadPreCommit(1, 0, 5))
+		s.N.AddTx(tx)
+		s.Fire()
+		s.N.Receive(s.Response(1, 0, p.Hash()))
+		s.N.Receive(s.Response(3, 0, p.Hash())) // M preparations of the others: the node sends its own pre-commit
+		s.N.Receive(s.PreCommit(2, p))           // own + invalid + one valid
+		return s.W
+	}},
 	// D8: timePerBlock << (view+1) overflowed into a negative timer duration at high views.
 	"D8-view-timeout-overflow": {Prop: "C10", Key: "D8-negative-duration-high-view", Run: func(keep bool) *sim.World {
 		cfg := soloCfg(4, 1, -1)
